@@ -3,8 +3,12 @@
 use std::collections::{BTreeMap, BTreeSet};
 
 use crate::{
-    ast::{AssignMode, Condition, Divert, DynamicStringPart, Expression, Flow, Node, ParsedStory},
+    ast::{
+        AssignMode, Choice, Condition, Divert, DynamicStringPart, Expression, Flow, Node,
+        ParsedStory,
+    },
     error::CompilerError,
+    parser::inline::tokenize_inline_content,
 };
 
 include!("context.rs");
